@@ -109,6 +109,10 @@ func writeClean(c *Case, rep *core.Report) *drive.WriteResult {
 		rep.Violate(kind, msg, c.Witness())
 		return nil
 	}
+	if res.ProbesIssued > 0 {
+		rep.Count("refused_message_probes_issued", int64(res.ProbesIssued))
+		rep.Count("refused_message_probes_not_refused", int64(res.ProbesAccepted))
+	}
 	return res
 }
 
